@@ -31,6 +31,7 @@ theorem cacheOK_update {parse : Key → Val} {ca : Key → Option Val} (h : Cach
   · next heq => cases hk; rw [heq]
   · exact h k v hk
 
+omit [DecidableEq Key] in
 theorem cacheOK_empty (parse : Key → Val) : CacheOK parse (fun _ => none) := by
   intro k v hk; cases hk
 
@@ -62,6 +63,7 @@ theorem stepThread_safe (parse : Key → Val) (sh : Loc → Val) (ca : Key → O
       exact cacheOK_update hc _
     | cacheClear => exact ⟨rfl, cacheOK_empty parse⟩
 
+omit [DecidableEq Loc] [DecidableEq Key] in
 theorem pureStep_prog_subset (parse : Key → Val) (th : Thread L Loc Val Key) :
     ∀ s ∈ (pureStep parse th).prog, s ∈ th.prog := by
   obtain ⟨st, prog⟩ := th
@@ -102,9 +104,10 @@ theorem sched1_spec (parse : Key → Val) (t : Nat) (c : Config L Loc Val Key) (
       · exact h.1 th' hold s hs
       · rw [hnew, hstep] at hs
         exact h.1 th hmem s (pureStep_prog_subset parse th s hs)
-    · simp only [List.getElem?_set]
+    · show (c.threads.set t (stepThread parse c.shared c.cache th).2.2)[i]? = _
+      rw [List.getElem?_set]
       by_cases hti : t = i
-      · subst hti; simp [hlt, ht, hstep]
+      · subst hti; rw [ht]; simp [hlt, hstep]
       · simp [hti]
 
 /-- Under the invariant, after any schedule every thread is where `count` of its own safe steps put it --
@@ -116,7 +119,8 @@ theorem run_spec (parse : Key → Val) (sched : Schedule) : ∀ (c : Config L Lo
   | nil =>
     intro c h
     refine ⟨h, fun i => ?_⟩
-    cases c.threads[i]? <;> rfl
+    show c.threads[i]? = _
+    cases c.threads[i]? <;> simp [pureAdvance]
   | cons t s ih =>
     intro c h
     obtain ⟨h1, hthreads⟩ := sched1_spec parse t c h
@@ -127,9 +131,9 @@ theorem run_spec (parse : Key → Val) (sched : Schedule) : ∀ (c : Config L Lo
     by_cases hti : t = i
     · subst hti
       cases c.threads[t]? with
-      | none => rfl
-      | some th => simp [List.count_cons, pureAdvance]
-    · have : (t :: s).count i = s.count i := by simp [List.count_cons, hti]
+      | none => simp
+      | some th => simp [pureAdvance]
+    · have : (t :: s).count i = s.count i := by simp [hti]
       simp [hti, this]
 
 /-- **noninterference.** If no thread has a step that reads or writes a shared slot -- only steps on its own
@@ -143,7 +147,9 @@ theorem noninterference (parse : Key → Val) (c : Config L Loc Val Key)
   have h1 := (run_spec parse sched c ⟨hsafe, hcache⟩).2 i
   have hmem : th ∈ c.threads := List.mem_of_getElem? hi
   have inv2 : Inv parse (⟨c.shared, fun _ => none, [th]⟩ : Config L Loc Val Key) :=
-    ⟨fun th' hth' => by simp at hth'; subst hth'; exact hsafe th hmem, cacheOK_empty parse⟩
+    ⟨fun th' hth' => by
+      have : th' = th := by simpa using hth'
+      subst this; exact hsafe th' hmem, cacheOK_empty parse⟩
   have h2 := (run_spec parse (List.replicate (sched.count i) 0) _ inv2).2 0
   unfold runAlone
   rw [h1, h2, hi]
